@@ -659,5 +659,11 @@ func main() {
 	}
 	R.Class("generated keys (system entropy)", 4)
 	R.Expect("ecdh/ordered key pairs", "private key candidate/accept", "private key candidate/reject", "public key string/accept", "public key string/reject", "public key string/identity (reject)", "public key string/other-curve points")
+	// cold start: key import and ECDH as the first library operations of a fresh process
+	for f := 0; f < 3; f++ {
+		R.Cold("ecdh", "ecdh", mc.D{"a": mc.HexBig(big.NewInt(0x1337)), "b": mc.HexBig(new(big.Int).Sub(ref.N, big.NewInt(6))), "format": f})
+	}
+	R.Cold("pub/compressed", "pub", mc.D{"bytes": mc.Hex(ref.G().Mul(big.NewInt(6)).Compressed())})
+	R.Cold("pub/uncompressed", "pub", mc.D{"bytes": mc.Hex(ref.G().Mul(big.NewInt(9)).Uncompressed())})
 	R.Finish()
 }
